@@ -19,7 +19,7 @@ static std::string op_brief(const OpResult& o)
 static Plan gen_c06(uint64_t seed, int64_t index, bool thorough)
 {
     Rng rng(hash_seed(seed, "C06", index));
-    std::vector<std::string> pk = keys_for({ "G1", "G2", "G3", "G4", "G5", "G6", "G7", "G8", "G9", "G10", "G11", "T1" });
+    std::vector<std::string> pk = keys_for({ "G1", "G2", "G3", "G4", "G5", "G6", "G7", "G8", "G9", "G10", "G11", "G12", "T1" });
     std::vector<std::string> rk = regex_keys();
     PlanOp op;
     std::string mode;
@@ -211,7 +211,7 @@ static std::string first_line(const std::string& s)
 static Plan gen_c09(uint64_t seed, int64_t index, bool thorough)
 {
     Rng rng(hash_seed(seed, "C09", index));
-    std::vector<std::string> pk = keys_for({ "G2", "G3", "G4", "G5", "G8", "G9", "G10", "G10" });
+    std::vector<std::string> pk = keys_for({ "G2", "G3", "G4", "G5", "G8", "G9", "G10", "G10", "G12" });
     std::string key = rng.pick(pk);
     const ref::Model* m = model_for(grammar_of(key));
     OpShape sh;
@@ -328,7 +328,7 @@ static std::vector<Violation> case_c09(const Plan& p, CaseCtx& cx)
 static Plan gen_c10(uint64_t seed, int64_t index, bool thorough)
 {
     Rng rng(hash_seed(seed, "C10", index));
-    std::vector<std::string> pk = keys_for({ "G1", "G2", "G4", "G4", "G5", "G5", "G7", "G9", "G9", "G10", "G10", "G11", "T1" }, false);
+    std::vector<std::string> pk = keys_for({ "G1", "G2", "G4", "G4", "G5", "G5", "G7", "G9", "G9", "G10", "G10", "G11", "G12", "T1" }, false);
     std::string key = rng.pick(pk);
     const ref::Model* m = model_for(grammar_of(key));
     OpShape sh;
@@ -481,6 +481,58 @@ static std::vector<std::string> syntax_error_names(const std::string& text)
     return r;
 }
 
+static bool c08_compare(const Plan& p, const OpResult& o, const ref::RefResult& r, const char* against, std::vector<Violation>& vs)
+{
+    std::string brief = op_brief(o);
+    std::string ag = std::string(" [reference: documented algorithm over ") + against + "]";
+    if (o.out.has_value != r.accepted)
+    {
+        vs.push_back(make_violation("C08", r.accepted ? "recovery_should_succeed" : "recovery_should_fail",
+            std::string("parse returned ") + (o.out.has_value ? "a value" : "no value") + ", the documented algorithm " + (r.accepted ? "recovers and accepts" : "fails") +
+            " (expected result " + printable(r.text, 200) + ")" + ag + "; " + brief, p));
+        return false;
+    }
+    if (r.accepted && o.out.sdigest != r.sdigest)
+    {
+        vs.push_back(make_violation("C08", "wrong_values_kept", "result " + printable(o.out.text, 300) + " but the documented algorithm keeps/discards differently: " + printable(r.text, 300) + ag + "; " + brief, p));
+        return false;
+    }
+    // functor calls (including those whose results are discarded later)
+    {
+        size_t n = std::max(o.rec.reds.size(), r.reds.size());
+        for (size_t i = 0; i < n; ++i)
+        {
+            bool bad = i >= o.rec.reds.size() || i >= r.reds.size() || o.rec.reds[i].rule != r.reds[i].rule || o.rec.reds[i].sdigest != r.reds[i].sdigest;
+            if (bad)
+            {
+                vs.push_back(make_violation("C08", "functor_history_differs",
+                    "functor call #" + std::to_string(i) + " differs (real " + (i < o.rec.reds.size() ? "rule " + std::to_string(o.rec.reds[i].rule) : std::string("none")) +
+                    ", documented " + (i < r.reds.size() ? "rule " + std::to_string(r.reds[i].rule) : std::string("none")) + ")" + ag + "; " + brief, p));
+                return false;
+            }
+        }
+    }
+    if (o.op.stream != STR_NONE)
+    {
+        std::string written = o.op.stream == STR_OSS ? o.out.oss_text : o.rec.wrote;
+        std::vector<std::string> got = syntax_error_names(written), want;
+        for (const ref::Act& a : r.acts) if (a.k == ref::Act::SYNTAX_ERROR) want.push_back(a.s);
+        if (got != want)
+        {
+            vs.push_back(make_violation("C08", "syntax_errors_differ",
+                "reported " + std::to_string(got.size()) + " syntax error(s), documented algorithm reports " + std::to_string(want.size()) + "; output '" + printable(written, 300) + "'" + ag + "; " + brief, p));
+            return false;
+        }
+    }
+    return true;
+}
+
+// Grammars whose table is, on the pinned tree, exactly the canonical LR(1) table (no maximal-length rule ends in a
+// nonterminal, so observation O1 cannot touch them): for these the recovery outcome is ALSO judged against the
+// canonical construction, so that a table that stops offering the error symbol where the grammar says it can be
+// accepted is reported. The other recovery grammars (G1) are judged over the parser's own table only.
+static bool canonical_recovery_grammar(const std::string& g) { return g == "G6" || g == "G7" || g == "G11" || g == "T1"; }
+
 static std::vector<Violation> case_c08(const Plan& p, CaseCtx& cx)
 {
     std::vector<Violation> vs;
@@ -510,52 +562,20 @@ static std::vector<Violation> case_c08(const Plan& p, CaseCtx& cx)
         if (r.rec_fail_stack) st.add("probe.recovery_fails_stack_exhausted");
         if (r.rec_fail_eof) st.add("probe.recovery_fails_eof_while_discarding");
         if (r.reduce_on_error_token) st.add("probe.reduce_on_error_symbol");
+        if (r.reduce_after_pop) st.add("probe.reduce_on_error_symbol_after_a_pop");
         if (r.discarded_terms >= 1) st.add("probe.terms_discarded");
-        if (r.syntax_errors && !r.tokens.empty() && r.acts.size() && r.tokens.size() >= 1)
-        {
-            // error on the first term?
-            for (const ref::Act& a : r.acts) { if (a.k == ref::Act::SYNTAX_ERROR) { if (r.shifted.empty() || r.shifted[0].off >= 0) {} break; } }
-        }
         if (r.syntax_errors && r.accepted) st.add("outcome.recovered_and_accepted");
         if (r.syntax_errors && !r.accepted) st.add("outcome.recovery_failed");
+        if (r.eof_acted_on_in_consume) st.add("probe.end_of_input_ends_the_discard_phase");
     }
-    if (o.out.has_value != r.accepted)
+    if (!c08_compare(p, o, r, "the parser's own table", vs)) return vs;
+    if (canonical_recovery_grammar(grammar_of(o.op.parser)))
     {
-        vs.push_back(make_violation("C08", r.accepted ? "recovery_should_succeed" : "recovery_should_fail",
-            std::string("parse returned ") + (o.out.has_value ? "a value" : "no value") + ", the documented algorithm " + (r.accepted ? "recovers and accepts" : "fails") +
-            " (expected result " + printable(r.text, 200) + "); " + brief, p));
-        return vs;
-    }
-    if (r.accepted && o.out.sdigest != r.sdigest)
-    {
-        vs.push_back(make_violation("C08", "wrong_values_kept", "result " + printable(o.out.text, 300) + " but the documented algorithm keeps/discards differently: " + printable(r.text, 300) + "; " + brief, p));
-        return vs;
-    }
-    // functor calls (including those whose results are discarded later)
-    {
-        size_t n = std::max(o.rec.reds.size(), r.reds.size());
-        for (size_t i = 0; i < n; ++i)
+        ref::RefResult rc = ref_for(o, REF_CANONICAL);
+        if (!rc.step_limit && !rc.lexical_error)
         {
-            bool bad = i >= o.rec.reds.size() || i >= r.reds.size() || o.rec.reds[i].rule != r.reds[i].rule || o.rec.reds[i].sdigest != r.reds[i].sdigest;
-            if (bad)
-            {
-                vs.push_back(make_violation("C08", "functor_history_differs",
-                    "functor call #" + std::to_string(i) + " differs (real " + (i < o.rec.reds.size() ? "rule " + std::to_string(o.rec.reds[i].rule) : std::string("none")) +
-                    ", documented " + (i < r.reds.size() ? "rule " + std::to_string(r.reds[i].rule) : std::string("none")) + "); " + brief, p));
-                return vs;
-            }
-        }
-    }
-    if (o.op.stream != STR_NONE)
-    {
-        std::string written = o.op.stream == STR_OSS ? o.out.oss_text : o.rec.wrote;
-        std::vector<std::string> got = syntax_error_names(written), want;
-        for (const ref::Act& a : r.acts) if (a.k == ref::Act::SYNTAX_ERROR) want.push_back(a.s);
-        if (got != want)
-        {
-            vs.push_back(make_violation("C08", "syntax_errors_differ",
-                "reported " + std::to_string(got.size()) + " syntax error(s), documented algorithm reports " + std::to_string(want.size()) + "; output '" + printable(written, 300) + "'; " + brief, p));
-            return vs;
+            if (!c08_compare(p, o, rc, "the canonical LR(1) table of the grammar", vs)) return vs;
+            if (cx.st) cx.st->add("judged_against_canonical_table_too");
         }
     }
     // bounded liveness once the faults are behind us
